@@ -439,18 +439,24 @@ def run_task(task):
                         ('bytes', None, {'strategy': 'walk', 'seed': rng.randrange(1 << 40),
                                          'p_event': 0.3,
                                          'net': {'chunk': 'bytes', 'latency': 'uniform'}})]
+            # the close is abortive (the receiving end said something the peer never read)
+            variants.append(('reset', None, {'strategy': 'fifo', 'seed': 0,
+                                             'net': {'chunk': 'whole', 'latency': 'const',
+                                                     'rst': True}}))
             for c in range(1, eof):
                 variants.append((f'cut@{c}', [c], sched0))
             for name, cuts, sched in variants:
                 plan = {'family': 'S4', 'msgs': _plan_msgs(msgs), 'eof': eof, 'sched': sched,
                         'cuts': cuts}
+                if name == 'reset':
+                    plan['greet'] = True
                 one(plan, 's4e:' + name.split('@')[0])
                 nruns += 1
                 if len(findings) > 40:
                     break
         st['exhaustive'] = {'messages': len(msgs), 'stream_bytes': total,
                             'eof_offsets': total + 1, 'runs': nruns,
-                            'what': 'every EOF offset x {unsplit, byte-wise, every single cut}'}
+                            'what': 'every EOF offset x {unsplit, byte-wise, abortive close (RST), every single cut}'}
         samples.append({'messages': [m[0] for m in msgs], 'stream_bytes': total, 'runs': nruns})
     # keep one finding per key
     seen = set()
